@@ -372,9 +372,10 @@ def write_picosvg_builds(
     for svg_file in master.sources:
         svg_file = abspath(svg_file)
         dest = picosvg_dest(font_config.clip_to_viewbox, svg_file)
-        if svg_file in picosvg_builds:
+        # key on dest: one source is built twice if configs differ in clip_to_viewbox
+        if dest in picosvg_builds:
             continue
-        picosvg_builds.add(svg_file)
+        picosvg_builds.add(dest)
         nw.build(dest, rule_name, rel_build(svg_file))
 
         part_dest = part_file_dest(dest)
